@@ -26,8 +26,8 @@ RULE = ("documents: AST grammar (sections 1-6, * # : ; lists incl. nested and de
         "attributes, captions, same-line cells and cells starting with a blank, bold/italic, links with trails, external "
         "links, bare URLs, templates with named/positional args, parser functions, {{{args}}}, inline and block HTML with "
         "URL-safe attribute values, void tags, <pre>, leading-blank lines, magic words, nowiki, literal [[ ]] [ ] text) "
-        "at depth 1..4, plus the string grammar of vf.gen.docs; every document is checked whole, then up to 10 "
-        "self-standing subtrees and 4 child lists of its tree are passed to node_to_wikitext directly; strings: random "
+        "at depth 1..4, plus the string grammar of vf.gen.docs; every document is checked whole, then up to 6 "
+        "self-standing subtrees and 2 child lists of its tree are passed to node_to_wikitext directly; strings: random "
         "token strings over words and bracket runs, and ALL strings over {[,],a} up to length 8 (quick: 7) and over "
         "{[,],a,|,blank} up to length 5. non-trivial = distinct document whose tree has >= 3 node kinds, or distinct "
         "string containing [[ or ]]")
@@ -63,7 +63,7 @@ def to_attrs_ref(node):
 
 SELF_STANDING = {"LEVEL1", "LEVEL2", "LEVEL3", "LEVEL4", "LEVEL5", "LEVEL6", "LIST", "TABLE", "HTML", "BOLD", "ITALIC",
                  "LINK", "TEMPLATE", "PARSER_FN", "TEMPLATE_ARG", "URL", "HLINE", "PRE", "PREFORMATTED", "MAGIC_WORD"}
-ALL_KINDS = 27
+ALL_KINDS = 26
 
 
 def floors(tier):
@@ -204,7 +204,8 @@ class Monitor:
         parser is known to keep it verbatim.  Only used to NAME a failure that the plain relation found."""
         app = self.applicable(x, w)
         if not app:
-            return None
+            return None, None
+        last = {}
 
         def ok(comps):
             self.obs.count("explain.attempts")
@@ -218,36 +219,41 @@ class Monitor:
             if "quote-sep" in comps:
                 relax += ("marker-args",)       # the separator itself is kept verbatim inside brace arguments
             if whole:
-                return N_node(x, relax) == N_node(t, relax)
-            return N_list(x if isinstance(x, (list, tuple)) else [x], True, relax) == N_node(t, relax)[4]
+                a, b = N_node(x, relax), N_node(t, relax)
+            else:
+                a, b = N_list(x if isinstance(x, (list, tuple)) else [x], True, relax), N_node(t, relax)[4]
+            last["ab"] = (a, b)
+            return a == b
 
         cur = tuple(app)
         if not ok(cur):
+            residual = last.get("ab")
             # not monotone in rare cases: look for a small explaining set before giving up
             for size in (1, 2):
                 for comps in itertools.combinations(app, size):
                     if len(comps) < len(app) and ok(comps):
-                        return comps
-            return None
+                        return comps, None
+            # what is left when every known mechanism is compensated names the unknown one
+            return None, (first_diff(*residual) if residual else None)
         for c in app:                      # 1-minimal subset, fixed order
             if len(cur) == 1:
                 break
             trial = tuple(y for y in cur if y != c)
             if ok(trial):
                 cur = trial
-        return cur
+        return cur, None
 
     def judge(self, P, rule, x, w, want, got, whole, where):
         """want/got: canonical forms.  Records nothing when equal."""
         if want == got:
             return
-        comps = self.explain(x, w, whole)
+        comps, residual = self.explain(x, w, whole)
+        msg = "%s: w=%r want=%s got=%s" % (where, w[:300], str(want)[:400], str(got)[:400])
         if comps is not None:
             for c in comps:
-                P("%s:%s" % (rule, MECH[c]), "%s: w=%r want=%s got=%s" % (where, w[:300], str(want)[:400], str(got)[:400]))
+                P("%s:%s" % (rule, MECH[c]), msg)
             return
-        d = first_diff(want, got)
-        P("%s:%s" % (rule, d), "%s: w=%r want=%s got=%s" % (where, w[:300], str(want)[:400], str(got)[:400]))
+        P("%s:%s" % (rule, residual or first_diff(want, got)), msg)
 
     # -- one document
     def eval_doc(self, text, rng=None, count=True):
@@ -308,10 +314,10 @@ class Monitor:
             if k not in ("ROOT", "PRE", "PREFORMATTED") and n.children and list_ok(n.children):
                 lists.append(n)
         if rng is not None:
-            if len(subs) > 8:
-                subs = rng.sample(subs, 8)
-            if len(lists) > 3:
-                lists = rng.sample(lists, 3)
+            if len(subs) > 6:
+                subs = rng.sample(subs, 6)
+            if len(lists) > 2:
+                lists = rng.sample(lists, 2)
         for n in subs:
             k = n.kind.name
             try:
@@ -441,13 +447,16 @@ def report_doc(mon, obs, doc, text, probs, budget_left):
     """Record violations of one document; delta-minimise the witness for the first few of each signature."""
     for sig, msg in probs:
         case = {"kind": "doc", "text": text}
-        n_seen = obs.violations.get(sig, {}).get("n", 0)
-        if doc is not None and n_seen < 3 and budget_left[0] > 0 and not sig.startswith(("no-return", "raises")):
+        named = sig.split(":", 1)[-1] in MECH.values()
+        tried = budget_left[1]
+        if doc is not None and budget_left[0] > 0 and not sig.startswith(("no-return", "raises")) and \
+                (len(text) < 250 or not named) and tried.get(sig, 0) < 3:
+            tried[sig] = tried.get(sig, 0) + 1
             def pred(v, sig=sig):
                 budget_left[0] -= 1
                 pp, _ = mon.eval_doc(G.render(v), rng=None, count=False)
                 return any(p[0] == sig for p in pp)
-            small = G.minimise(doc, pred, budget=200)
+            small = G.minimise(doc, pred, budget=min(100, budget_left[0]))
             stext = G.render(small)
             if len(stext) < len(text):
                 pp, _ = mon.eval_doc(stext, rng=None, count=False)
@@ -463,7 +472,7 @@ def run_shard(spec):
     obs = Obs()
     rng = random.Random(spec["seed"])
     mon = Monitor(obs)
-    budget_left = [4000]
+    budget_left = [400, {}]
     n = spec["n"]
     for i in range(n):
         depth = 1 + (i % 4)
